@@ -250,11 +250,15 @@ func rangeFrom(bound []byte) *ScanType {
 	return &ScanType{RANGE, [][]byte{bound, nil}}
 }
 
-// rangeUpTo is the scan for key < bound and key <= bound
-func rangeUpTo(bound []byte) *ScanType {
+// rangeUpTo is the scan for key < bound (strict) and key <= bound
+func rangeUpTo(bound []byte, strict bool) *ScanType {
 	if string(bound) == "" {
-		// key < '' or key <= '' means no keys should be scan
-		return &ScanType{EMPTY, nil}
+		if strict {
+			// key < '' means no keys should be scan
+			return &ScanType{EMPTY, nil}
+		}
+		// key <= '' can only be the empty key
+		return &ScanType{MGET, [][]byte{bound}}
 	}
 	return &ScanType{RANGE, [][]byte{nil, bound}}
 }
@@ -267,7 +271,7 @@ func (o *FilterOptimizer) optimizeGtGteExpr(e *BinaryOpExpr) *ScanType {
 	if field == KeyKW && key != nil {
 		if literalOnLeft {
 			// 'b' > key is key < 'b'
-			return rangeUpTo(key)
+			return rangeUpTo(key, e.Op == Gt)
 		}
 		return rangeFrom(key)
 	}
@@ -286,7 +290,7 @@ func (o *FilterOptimizer) optimizeLtLteExpr(e *BinaryOpExpr) *ScanType {
 			// 'b' < key is key > 'b'
 			return rangeFrom(key)
 		}
-		return rangeUpTo(key)
+		return rangeUpTo(key, e.Op == Lt)
 	}
 
 	// If not just return FULL scan
